@@ -102,7 +102,7 @@ def run(ctx):
         stubs = mk_stubs(ctx, fns, utils_fns, captured)
         self_ = Obj('PlanJoinTSPredictorQuery')
         stubs['self.plan_fetch_timeseries_partitions'] = lambda it, *a, **k: it.call_function(fns['plan_fetch_timeseries_partitions'], [self_] + list(a), dict(k), Env())
-        q = select_ctor(None, targets=[Obj('Star')], where=where, limit=const(limit) if limit else None, modifiers=None)
+        q = select_ctor(None, targets=[Obj('Star')], where=where, limit=const(limit) if limit is not None else None, modifiers=None)
         for k, v in (extra or {}).items():
             setattr(q, k, v)
         table = Obj('Identifier', parts=['int1', 'tbl'], alias=Obj('Identifier', parts=['ta'], alias=None))
@@ -124,12 +124,21 @@ def run(ctx):
         '<': lambda: binop('<', tcol(), const(5)), '<=': lambda: binop('<=', tcol(), const(5)),
         'between': lambda: between(tcol(), const(3), const(8)),
         '> latest': lambda: binop('>', tcol(), latest()), '= latest': lambda: binop('=', tcol(), latest()), 'none': lambda: None,
+        # the same conditions written value-first: `5 < time` is `time > 5`
+        'rev >': lambda: binop('<', const(5), tcol()), 'rev >=': lambda: binop('<=', const(5), tcol()), 'rev <': lambda: binop('>', const(5), tcol()),
+        'rev <=': lambda: binop('>=', const(5), tcol()), 'rev =': lambda: binop('=', const(5), tcol()),
     }
     # reference: (window bound as (op, value) or None for "no bound" or False for "no window query", range query expected?)
     REF = {'>': (('<=', 5), True), '>=': (('<', 5), True), '=': (('<=', 5), False), '<': (False, True), '<=': (False, True),
            'between': (('<', 3), True), '> latest': (None, False), '= latest': (None, False), 'none': (False, True)}
-    OUT = {'=': ('>', 5)}       # pinned by tests/test_planner/test_ts_predictor.py::test_join_predictor_timeseries_concrete_date_equal
-    for op, pf, groups, limit in itertools.product(conds, ('none', 'before', 'after', 'nested-right', 'nested-left'), ([], ['grp'], ['grp', 'g2']), (None, 7)):
+    for k_ in ('>', '>=', '<', '<=', '='):
+        REF['rev ' + k_] = REF[k_]
+    OUT = {'=': ('>', 5), 'rev =': ('>', 5)}       # pinned by tests/test_planner/test_ts_predictor.py::test_join_predictor_timeseries_concrete_date_equal
+    for op, pf, groups, limit in itertools.product(conds, ('none', 'before', 'after', 'nested-right', 'nested-left'), ([], ['grp'], ['grp', 'g2']), (None, 7, 0)):
+        if limit == 0 and not (pf == 'none' and groups == ['grp']):
+            continue        # LIMIT 0 (a LIMIT, though falsy): one row per operator is enough
+        if op.startswith('rev') and pf.startswith('nested'):
+            continue
         if pf != 'none' and 'grp' not in groups:
             continue        # a filter on a column that is not a group column is rejected (see C15.rejects)
         if pf.startswith('nested') and ('g2' not in groups or op == 'none'):
@@ -321,7 +330,7 @@ def run(ctx):
                    witness='select * from (select * from int1.tbl limit 100) t1 join proj.tp m limit 5')
     # ---- LIMIT after the join (plan) --------------------------------------------------------------------------------------------------------
     pl = fns['plan']
-    for saved, left_is_model in itertools.product((None, 7), (False, True)):
+    for saved, left_is_model in itertools.product((None, 7, 0), (False, True)):       # LIMIT 0 is a LIMIT: the answer is empty
         added = []
         pred_step = Obj('ApplyTimeseriesPredictorStep', result=Obj('Result', ref_name='result_2'))
         data_step = Obj('FetchDataframeStep', result=Obj('Result', ref_name='result_1'))
@@ -347,9 +356,9 @@ def run(ctx):
         rows += 1
         kinds = [s.kind for s in added]
         label = f'saved_limit={saved} model on the {"left" if left_is_model else "right"}'
-        want = ['JoinStep'] + (['LimitOffsetStep'] if saved else [])
+        want = ['JoinStep'] + (['LimitOffsetStep'] if saved is not None else [])
         ok = kinds == want
-        if ok and saved:
+        if ok and saved is not None:
             ok = added[1].dataframe is added[0].result and added[1].limit == saved
         ctx.ob('C15.limit-after-join', label, ok and out.dataframe is added[-1].result,
                f'[{label}] plan() must add the JoinStep and then, iff the user gave a LIMIT, a LimitOffsetStep(limit=<the LIMIT>) on the JoinStep\'s result; added {kinds}',
@@ -400,5 +409,7 @@ def _sig(c):
     if len(args) == 2 and args[0].kind == 'Identifier':
         return (op, args[0].parts[-1], val(args[1]))
     if len(args) == 2 and args[1].kind == 'Identifier':
-        return (op + ' (reversed)', args[1].parts[-1], val(args[0]))
+        # value-first comparison: the same condition with the operator mirrored (`5 < t` is `t > 5`)
+        mirror = {'<': '>', '<=': '>=', '>': '<', '>=': '<=', '=': '=', '!=': '!=', '<>': '<>'}
+        return (mirror.get(op, op + ' (reversed)'), args[1].parts[-1], val(args[0]))
     return (op, None, [val(a) for a in args])
